@@ -27,7 +27,9 @@ Definition run_line (cfg : ccfg) (w : wcfg) (line : bytes) : bytes :=
       else if bytes_eqb p (s2b "SER") then run_ser args
       else if bytes_eqb p (s2b "POP") then run_pop args
       else if bytes_eqb p (s2b "SERJ") then run_serj args
+      else if bytes_eqb p (s2b "ALL") then s2b "*"      (* every entry point on arbitrary bytes: judged by the no-panic / allocation oracles *)
       else if bytes_eqb p (s2b "SERJ") then run_serj args
+      else if bytes_eqb p (s2b "ALL") then s2b "*"      (* every entry point on arbitrary bytes: judged by the no-panic / allocation oracles *)
       else if bytes_eqb p (s2b "TAMP") then run_tamp cfg w args
       else if bytes_eqb p (s2b "DECV") then run_decv cfg w args
       else bad_input
